@@ -32,6 +32,10 @@ type c05Reservation struct {
 	// Refused: a request for more than is left (Size is huge, no frames); the
 	// caller gets an error and carries on, as early boot code does
 	Refused bool `json:"refused,omitempty"`
+	// Flags (0 = present|writable): the flags the pages of the region were mapped with before the
+	// kernel address space is built - e.g. a framebuffer mapped write-combining (the memory-type bit
+	// of a last-level entry is bit 7) or no-execute. Always present.
+	Flags uint64 `json:"flags,omitempty"`
 }
 
 type c05Case struct {
@@ -78,7 +82,11 @@ func c05Run(c c05Case) *vlib.Failure {
 				return
 			}
 			for k, f := range r.Frames {
-				if err = Map(mm.PageFromAddress(addr)+mm.Page(k), mm.Frame(f), FlagPresent|FlagRW); err != nil {
+				fl := FlagPresent | FlagRW
+				if r.Flags != 0 {
+					fl = PageTableEntryFlag(r.Flags) | FlagPresent
+				}
+				if err = Map(mm.PageFromAddress(addr)+mm.Page(k), mm.Frame(f), fl); err != nil {
 					return
 				}
 			}
@@ -364,6 +372,9 @@ func c05Gen(t *rapid.T) c05Case {
 				r.Frames = append(r.Frames, rapid.Uint64Range(1, 1<<36).Draw(t, "rframe"))
 			}
 		}
+		if rapid.IntRange(0, 3).Draw(t, "rflagsodd") == 0 {
+			r.Flags = c04GenFlags(t)
+		}
 		c.Reservations = append(c.Reservations, r)
 		if rapid.IntRange(0, 7).Draw(t, "refused") == 0 {
 			c.Reservations = append(c.Reservations, c05Reservation{Refused: true,
@@ -424,6 +435,9 @@ func TestVerifC05(t *testing.T) {
 			add("has-reservations")
 		}
 		for _, r := range c.Reservations {
+			if r.Flags&(1<<7) != 0 {
+				add("reservation-mapped-with-the-memory-type-bit-(bit-7)-set")
+			}
 			if len(r.Frames) >= 512 {
 				add("reservation-of-a-page-table-or-more")
 			}
